@@ -146,6 +146,18 @@ def case_cov(B, cfg):
             ps.arr(B, vth[i]), ps.arr(B, [eta[i]]))
         psi_ref.append(list(r[0]))
     B.eq_array('individual parameters = underlying(vartheta_i)', psi, psi_ref)
+    # the caller keeps the array: a later evaluation at other parameters (and
+    # other covariates) does not change what it holds
+    theta_o = [B.var('other%d' % k) for k in range(len(theta))]
+    cov_o = ps.arr(B, [[B.var('ochi%d_%d' % (i, c)) for c in range(n_cov)]
+                       for i in range(n_ids)])
+    try:
+        m.compute_individual_parameters(
+            ps.arr(B, theta_o), ps.arr(B, eta), covariates=cov_o)
+    except Exception as e:
+        B.note('second evaluation', repr(e))
+    B.eq_array('individual parameters returned earlier still hold their '
+               'values after another evaluation', psi, psi_ref)
     # sensitivities = derivative of the value term (+ upstream chain rule)
     if kind != 'pooled' and not cfg.get('zero'):
         G = [[B.var('G%d_%d' % (i, d)) for d in range(n_dim)]
@@ -264,6 +276,15 @@ def case_linear(B, cfg):
     v = cm.compute_population_parameters(
         ps.arr(B, flat_beta), ps.arr(B, pop), ps.arr(B, chis))
     B.fact('shape', np.shape(v) == (n_ids, P, n_dim), repr(np.shape(v)))
+    # (another evaluation in between: the array returned first is the
+    # caller's and keeps its values)
+    v2 = cm.compute_population_parameters(
+        ps.arr(B, [B.var('ob%d' % k) for k in range(len(flat_beta))]),
+        ps.arr(B, [[B.var('oth%d_%d' % (p, d)) for d in range(n_dim)]
+                   for p in range(P)]),
+        ps.arr(B, [[B.var('ochi%d_%d' % (i, c)) for c in range(n_cov)]
+                   for i in range(n_ids)]))
+    B.fact('a second evaluation returns its own array', v2 is not v)
     for i in range(n_ids):
         for p in range(P):
             for d in range(n_dim):
